@@ -393,7 +393,8 @@ def r17_6_set_lengths(rep, facts):
         ce, lab = conds[0]
         zt = None
         from .common import zero_test
-        zt = zero_test(ce)
+        dty = next((n_.term.get("dty") for (e_, l_, n_) in r.conds if e_ is ce), None)
+        zt = zero_test(ce, dty)
         if zt is None:
             ok = False
             continue
@@ -473,8 +474,30 @@ def r17_4_epilogue(rep, facts):
         for c in ext[:-1]:
             d = ir.peel(c[1][1])
             hdr = [x for x in ir.walk(d) if x[0] == 'call' and x[1] == "protocol::RecordHeader::new"]
-            if not (d[0] == 'call' and d[1] == "protocol::RecordHeader::to_bytes" and hdr and ir.peel(hdr[0][2][1])[0] == 'param'
-                    and any(y[0] == 'call' and 'Iterator' in y[1] and y[1].endswith("::next") for y in ir.walk(hdr[0][2][0]))):
+            direct = (d[0] == 'call' and d[1] == "protocol::RecordHeader::to_bytes" and hdr and ir.peel(hdr[0][2][1])[0] == 'param'
+                      and any(y[0] == 'call' and 'Iterator' in y[1] and y[1].endswith("::next") for y in ir.walk(hdr[0][2][0])))
+            # or: the headers are produced lazily, `streams.iter().map(|&s| RecordHeader::new(s, id).to_bytes())`, and appended one by one
+            mapped = False
+            nxt = [y for y in ir.walk(d) if y[0] == 'call' and 'Iterator' in y[1] and y[1].endswith("::next")]
+            cls = [y for y in ir.walk(d) if y[0] == 'agg' and y[1] == 'closure']
+            if not direct and nxt and len(cls) == 1 and any(y[0] == 'call' and y[1].endswith("::map") for y in ir.walk(d)):
+                cb = facts.by_path.get(cls[0][2])
+                if cb is not None:
+                    cg = ieg.IEG(facts, cb, inline_filter=lambda x: False)
+                    crs = [r2 for r2 in paths.rows(cg) if r2.end == 'return' and r2.ret is not None]
+                    def hdr_of_item(e2):
+                        e2 = ir.peel(e2)
+                        if not (e2[0] == 'call' and e2[1] == "protocol::RecordHeader::to_bytes"):
+                            return False
+                        h2 = ir.peel(e2[2][0])
+                        return (h2[0] == 'call' and h2[1] == "protocol::RecordHeader::new"
+                                and any(z[0] == 'param' and z[1] == 2 for z in ir.walk(h2[2][0]))       # the item handed to the closure
+                                and ir.peel(h2[2][1])[0] in ('upvar', 'field'))                         # the captured request id
+                    mapped = bool(crs) and all(hdr_of_item(r2.ret) for r2 in crs)
+                    # the captured id is the function's id parameter
+                    ups = [ir.peel(v) for (_, v) in cls[0][3]]
+                    mapped = mapped and any(u[0] == 'param' for u in ups)
+            if not (direct or mapped):
                 okh = False
         # the EndRequest and the stream headers must use the same id parameter
         ids = set()
@@ -515,6 +538,8 @@ def r17_5_response(rep, facts):
     names = [F.norm(t["func"]["res"]["path"] if t["func"].get("res") else t["func"].get("path", "")) for (_, t) in calls]
     need = ["protocol::nv::write", "protocol::RecordHeader::new", "protocol::RecordHeader::set_lengths",
             "protocol::RecordHeader::padding_bytes", "protocol::RecordHeader::to_bytes"]
+    import dispatch as _d
+    names = list(names) + sorted(_d.effective_calls(facts, b))      # also through helpers introduced later
     miss = [n for n in need if n not in names]
     if miss:
         rep.violation("R17.5", "write_response/structure", "write_response no longer calls %s" % miss, b.loc())
